@@ -58,6 +58,13 @@ def run(ctx):
     rule_privileged_keys(ctx)
     rule_raw_passthrough(ctx)
     rule_extra_props(ctx)
+    # "is this referenced type custom?" is a question about one spec version: the registry predicates must be asked with
+    # the version of the asking property, or a 2.1-only type counts as a standard reference of a 2.0 object
+    from .C14 import rule_version_in_scope
+    rule_version_in_scope(ctx, rule_id="C04.custom-by-version", only_callees={
+        "stix2.utils::is_object", "stix2.utils::is_stix_type", "stix2.utils::is_sdo", "stix2.utils::is_sco",
+        "stix2.utils::is_sro", "stix2.utils::is_marking", "stix2.registry::class_for_type"})
+    run.floor("C04.custom-by-version", 6)
 
 
 def stores_self_switch(prog, cls):
@@ -246,6 +253,36 @@ def _is_strict_raise_test(n, flag_text):
     return any(isinstance(s, ast.Raise) and exc_name(s) == "CustomContentError" for s in n.ast.body)
 
 
+def _monotone(run, R, fi, g, fl, flags):
+    """Once the custom-content flag may be set it is never reset: every assignment that a possibly-true earlier value
+    reaches (in particular every assignment inside a loop) keeps it (`flag = flag or x`, `flag = True`, `flag |= x`)."""
+    rd = fl.rd
+    rel = fi.module.relpath
+    for F in sorted(flags):
+        bad = None
+        n_assign = 0
+        for nd in g.nodes:
+            a = nd.ast
+            if nd.kind != "stmt" or not isinstance(a, ast.Assign) or len(a.targets) != 1 or norm(a.targets[0]) != F:
+                continue
+            n_assign += 1
+            v = a.value
+            keeps = (isinstance(v, ast.Constant) and v.value is True) or (
+                isinstance(v, ast.BoolOp) and isinstance(v.op, ast.Or) and any(isinstance(x, ast.Name) and x.id == F for x in v.values))
+            if keeps:
+                continue
+            prior = [(dn, dv) for dn, dv in rd.reaching(nd, F) if dn is not g.entry
+                     and not (isinstance(dv, ast.Constant) and dv.value is False)]
+            if prior:
+                bad = (a, prior[0][0])
+                break
+        run.check(bad is None, R, key(rel, fi.qualname, "flag-never-reset:%s" % F),
+                  "the custom-content flag is overwritten after it may already be set (assignment instead of accumulation): "
+                  "custom content found earlier -- an earlier element / extension / member -- is forgotten, the object reports "
+                  "has_custom=False and strict mode does not refuse it", file=rel, line=bad[0].lineno if bad else fi.node.lineno,
+                  function=fi.qualname, expected="%s = %s or <nested flag>" % (F, F), found=short(bad[0]) if bad else None)
+
+
 def rule_flag_back(ctx):
     run = ctx.run
     prog = ctx.prog
@@ -305,6 +342,7 @@ def rule_flag_back(ctx):
                           line=r.lineno, function=fi.qualname,
                           expected="`if not allow_custom and %s: raise CustomContentError` before the return" % ftext,
                           found="bypass", path=g.describe_path(p))
+        _monotone(run, R, fi, g, fl, {r.value.elts[1].id for r in rets if isinstance(r.value.elts[1], ast.Name)})
         c = key(rel, fi.qualname, "flag-sources")
         run.check(want <= feeding, R, c, "the returned flag no longer depends on %s" % sorted(want - feeding), file=rel,
                   line=fi.node.lineno, function=fi.qualname, expected=sorted(want), found=sorted(feeding))
@@ -338,6 +376,8 @@ def rule_flag_back(ctx):
               "the constructor does not accumulate the has_custom results of its property cleaners", file=rel,
               line=loops[0].lineno, function=init.qualname, expected="flag = flag or <_check_property result>",
               found="absent")
+    if FLAG is not None:
+        _monotone(run, R, init, g, fl, {FLAG})
     seeds = [n for n in body_walk(init.node) if isinstance(n, ast.Assign) and norm(n.targets[0]) == FLAG
              and loops[0] not in list(_parents(n))]
     seed_ok = False
